@@ -115,7 +115,11 @@ def run_case(case):
         """fresh process, hash seed 0"""
         res, err = run_history(d, "base_" + tag, [step(entry, model, cfg, os.path.join(d, "base_" + tag), tag)])
         counters["baselines"] += 1
-        return (res[0] if res else {"ok": False, "error": "runner died: " + err})
+        if not res:
+            # the runner itself (not a compilation step, whose exceptions it records) did not finish: no verdict can be built on that
+            counters["baseline_runner_died"] = counters.get("baseline_runner_died", 0) + 1
+            return {"ok": None, "error": "runner died: " + err}
+        return res[0]
 
     if case["part"] == "hashseed":
         net = netgen.make(case["fam"], case["seed"])
@@ -212,6 +216,8 @@ def run_case(case):
                 if bk not in base_cache:
                     base_cache[bk] = baseline(m, c, "main", "b%d" % len(base_cache))
                 b = base_cache[bk]
+                if b["ok"] is None:
+                    continue
                 if not b["ok"]:
                     if r["ok"]:
                         # not compilable on its own (C13's business) - but then it must not compile after some history either
